@@ -16,6 +16,10 @@ import (
 
 const host = "app.example.com"
 
+// target is the redirect target: a nested path, so that an expiring Set-Cookie without Path=/ (default-path /x/y)
+// does not match the stored cookie (Path=/) in the client.
+const target = "/x/y/t"
+
 var alphabet = []string{"", "a", "a b", "k:v", "a,b", "é", "\x00", "\r\n", ";", `"`, strings.Repeat("z", 200)}
 var smallAlphabet = []string{"a", "\x00", ";", "é"}
 var levels = []uint8{0, 1, 255}
@@ -38,6 +42,8 @@ type seen struct {
 	Ran      bool   `json:"handler_ran"`
 	Msgs     []msg  `json:"messages"`
 	Olds     []msg  `json:"old_inputs"`
+	NMsgs    int    `json:"n_messages"`
+	NOlds    int    `json:"n_old_inputs"`
 	Cookie   string `json:"cookie_seen"`
 	ProbeBad string `json:"probe_mismatch,omitempty"`
 }
@@ -78,9 +84,9 @@ func newAppA() *appA {
 			}
 			r.WithInput()
 		}
-		return r.To("/t")
+		return r.To(target)
 	})
-	a.app.Get("/t", func(c fiber.Ctx) error {
+	a.app.Get(target, func(c fiber.Ctx) error {
 		a.got = observe(c, a.probes)
 		return c.SendString("ok")
 	})
@@ -89,14 +95,25 @@ func newAppA() *appA {
 	return a
 }
 
+const keepMax = 4096
+
 // observe copies everything the redirect API exposes (strings may alias request buffers).
 func observe(c fiber.Ctx, probes []msg) seen {
 	s := seen{Ran: true, Msgs: []msg{}, Olds: []msg{}}
 	r := c.Redirect()
-	for _, m := range r.Messages() {
+	fm, oi := r.Messages(), r.OldInputs()
+	s.NMsgs, s.NOlds = len(fm), len(oi)
+	// a well-formed cookie cannot hold more messages than bytes; beyond keepMax only the count is kept
+	if len(fm) > keepMax {
+		fm = fm[:keepMax]
+	}
+	if len(oi) > keepMax {
+		oi = oi[:keepMax]
+	}
+	for _, m := range fm {
 		s.Msgs = append(s.Msgs, msg{Key: strings.Clone(m.Key), Value: strings.Clone(m.Value), Level: m.Level})
 	}
-	for _, o := range r.OldInputs() {
+	for _, o := range oi {
 		s.Olds = append(s.Olds, msg{Key: strings.Clone(o.Key), Value: strings.Clone(o.Value), Old: true})
 	}
 	s.Cookie = strings.Clone(c.Cookies(fiber.FlashCookieName))
@@ -272,8 +289,8 @@ func (a *appA) exchange(cs *caseA, l *core.Local, sample bool) {
 
 	// request 2: replay
 	a.got = seen{}
-	ck2 := client.cookieHeader(host, "/t")
-	out2, p := serve(a.srv, buildGet("/t", ck2, ""))
+	ck2 := client.cookieHeader(host, target)
+	out2, p := serve(a.srv, buildGet(target, ck2, ""))
 	if p != nil {
 		l.Violate("a/panic request=2 input="+class, "handler panic on the replayed cookie", cs, fmt.Sprint(p), nil)
 		a.rebuild()
@@ -281,15 +298,15 @@ func (a *appA) exchange(cs *caseA, l *core.Local, sample bool) {
 	}
 	rs2 := parseResponse(out2)
 	s2 := a.got
-	client.receive(rs2, host, "/t")
+	client.receive(rs2, host, target)
 	k2 := seenKind(s2, want, rs2.Status)
 	_, held2 := client.get(fiber.FlashCookieName)
 
 	// request 3: replay whatever is still held
 	a.got = seen{}
 	a.probes = nil
-	ck3 := client.cookieHeader(host, "/t")
-	out3, p := serve(a.srv, buildGet("/t", ck3, ""))
+	ck3 := client.cookieHeader(host, target)
+	out3, p := serve(a.srv, buildGet(target, ck3, ""))
 	if p != nil {
 		l.Violate("a/panic request=3 input="+class, "handler panic on the second replay", cs, fmt.Sprint(p), nil)
 		a.rebuild()
@@ -300,11 +317,11 @@ func (a *appA) exchange(cs *caseA, l *core.Local, sample bool) {
 
 	// request 4: second client, no cookie; request 5: no cookie, but the name occurs in another header
 	a.got = seen{}
-	out4, _ := serve(a.srv, buildGet("/t", nil, ""))
+	out4, _ := serve(a.srv, buildGet(target, nil, ""))
 	rs4 := parseResponse(out4)
 	s4 := a.got
 	a.got = seen{}
-	out5, _ := serve(a.srv, buildGet("/t", nil, "X-Note: "+fiber.FlashCookieName+"\r\n"))
+	out5, _ := serve(a.srv, buildGet(target, nil, "X-Note: "+fiber.FlashCookieName+"\r\n"))
 	rs5 := parseResponse(out5)
 	s5 := a.got
 
@@ -314,7 +331,7 @@ func (a *appA) exchange(cs *caseA, l *core.Local, sample bool) {
 	mkObs := func() any {
 		return map[string]any{
 			"response1_status": rs1.Status, "response1_set_cookie": quoteAll(rs1.SetCookies), "client_holds_after_1": held1,
-			"request2_cookie_header": bq(ck2), "response2_status": rs2.Status, "request2_saw": qSeen(s2),
+			"request2_cookie_header": bq(ck2), "response2_status": rs2.Status, "request2_saw": qSeen(s2), "request2_outcome": k2,
 			"response2_set_cookie": quoteAll(rs2.SetCookies), "client_holds_after_2": held2,
 			"request3_cookie_header": bq(ck3), "response3_status": rs3.Status, "request3_saw": qSeen(s3),
 		}
@@ -340,7 +357,7 @@ func (a *appA) exchange(cs *caseA, l *core.Local, sample bool) {
 		}
 	} else {
 		if k2 != "exact" {
-			viol(fmt.Sprintf("a/not-delivered input=%s req2=%s", class, k2),
+			viol("a/not-delivered input="+class,
 				"the request replaying the issued Set-Cookie through a conforming client does not see exactly the attached messages/old input",
 				mkObs, map[string]any{"request2_must_see": sortMsgs(want)})
 		} else {
@@ -353,7 +370,7 @@ func (a *appA) exchange(cs *caseA, l *core.Local, sample bool) {
 			}
 		}
 		if n3 > 0 {
-			viol(fmt.Sprintf("a/delivered-again-on-request-3 req2=%s", k2), "the conforming client presents the messages a second time: request 3 sees messages",
+			viol("a/delivered-again-on-request-3", "the conforming client presents the messages a second time: request 3 sees messages",
 				mkObs, "request 3 sees none")
 		}
 	}
